@@ -170,6 +170,53 @@ pub fn gen_program(rng: &mut Rng) -> GenProgram {
         main_vars.push_str("    i : INT;\n");
     }
 
+    // encoder fallback / rollback statements at the start, after the first statement or at the end
+    if rng.chance(1, 2) {
+        f.push("fallback");
+        main_vars.push_str("    fx : INT := 0;\n    fi : INT := 0;\n    fk : INT := 0;\n    farr : ARRAY[0..3] OF INT;\n");
+        if !use_func {
+            pous.push_str("FUNCTION Add2 : INT\nVAR_INPUT a : INT; b : INT := 2; END_VAR\nAdd2 := a + b;\nEND_FUNCTION\n\n");
+        }
+        let rename = |stmt: &str| -> String {
+            let mut out = String::new();
+            let mut word = String::new();
+            let flush = |word: &mut String, out: &mut String| {
+                match word.as_str() {
+                    "x" => out.push_str("fx"),
+                    "i" => out.push_str("fi"),
+                    "k" => out.push_str("fk"),
+                    "arr" => out.push_str("farr"),
+                    w => out.push_str(w),
+                }
+                word.clear();
+            };
+            for ch in stmt.chars() {
+                if ch.is_ascii_alphanumeric() || ch == '_' {
+                    word.push(ch);
+                } else {
+                    flush(&mut word, &mut out);
+                    out.push(ch);
+                }
+            }
+            flush(&mut word, &mut out);
+            out
+        };
+        let (mut at_start, mut at_mid, mut at_end) = (String::new(), String::new(), String::new());
+        for _ in 0..1 + rng.below(3) {
+            let (_, stmt) = ROLLBACK_SITES[rng.below(ROLLBACK_SITES.len() as u64) as usize];
+            let stmt = rename(stmt);
+            match rng.below(3) {
+                0 => at_start.push_str(&stmt),
+                1 => at_mid.push_str(&stmt),
+                _ => at_end.push_str(&stmt),
+            }
+        }
+        // the first statement of the body is the one-line counter increment
+        let cut = main_body.find('\n').map(|p| p + 1).unwrap_or(0);
+        let (first, rest) = main_body.split_at(cut);
+        main_body = format!("{at_start}{first}{at_mid}{rest}{at_end}");
+    }
+
     let mut src = String::new();
     if !types.is_empty() {
         src.push_str("TYPE\n");
@@ -224,6 +271,79 @@ pub fn gen_program(rng: &mut Rng) -> GenProgram {
         src.push_str("END_CONFIGURATION\n");
     }
     GenProgram { source: src, features: f }
+}
+
+/// Statements that make the bytecode encoder take one of its fallback / rollback paths
+/// (codegen.rs: a statement that cannot be encoded is replaced by a NOP and everything emitted for it
+/// - code AND debug entries - is rolled back).  Variables: x, i, k : INT; arr : ARRAY[0..3] OF INT;
+/// function Add2.  `arr[i]` (variable index outside a function block) passes `expr_supported` but
+/// cannot be emitted; a call is rejected by `expr_supported` itself.
+pub const ROLLBACK_SITES: &[(&str, &str)] = &[
+    ("repeat-until-index", "REPEAT\n  x := x + 1;\n  i := i + 1;\nUNTIL (arr[i] > 0) OR (i >= 3)\nEND_REPEAT;\n"),
+    ("repeat-until-index-long-body", "REPEAT\n  x := x + 1;\n  i := i + 1;\n  IF x > 3 THEN x := 0; END_IF;\n  k := k + x;\nUNTIL arr[i] = 7\nEND_REPEAT;\n"),
+    ("repeat-until-call", "REPEAT\n  x := x + 1;\n  i := i + 1;\nUNTIL Add2(a := x) > 3\nEND_REPEAT;\n"),
+    ("repeat-ok", "REPEAT\n  x := x + 1;\n  i := i + 1;\nUNTIL i >= 3\nEND_REPEAT;\n"),
+    ("if-elsif-index", "IF x > 100 THEN\n  x := 1;\n  i := 2;\nELSIF arr[i] > 0 THEN\n  x := 3;\nELSE\n  x := 4;\nEND_IF;\n"),
+    ("if-second-elsif-index", "IF x > 100 THEN\n  x := 1;\n  i := 2;\nELSIF x > 50 THEN\n  k := 1;\n  k := 2;\nELSIF arr[i] > 0 THEN\n  x := 3;\nEND_IF;\n"),
+    ("if-cond-index", "IF arr[i] > 0 THEN\n  x := 1;\n  i := 1;\nEND_IF;\n"),
+    ("if-cond-call", "IF Add2(a := x) > 1 THEN\n  x := 1;\n  i := 1;\nEND_IF;\n"),
+    ("if-elsif-call", "IF x > 100 THEN\n  x := 1;\n  i := 2;\nELSIF Add2(a := x) > 1 THEN\n  x := 3;\nEND_IF;\n"),
+    ("while-index", "WHILE arr[i] > 5 DO\n  x := x + 1;\n  i := i + 1;\nEND_WHILE;\n"),
+    ("for-start-index", "FOR k := arr[i] TO 3 DO\n  x := x + 1;\n  i := 0;\nEND_FOR;\n"),
+    ("for-end-index", "FOR k := 0 TO arr[i] DO\n  x := x + 1;\n  i := 0;\nEND_FOR;\n"),
+    ("for-step-index", "FOR k := 0 TO 3 BY arr[i] + 1 DO\n  x := x + 1;\n  i := 0;\nEND_FOR;\n"),
+    ("for-ok", "FOR k := 0 TO 3 DO\n  x := x + 1;\n  i := 0;\nEND_FOR;\n"),
+    ("case-index", "CASE arr[i] OF\n  1: x := 1; i := 2;\n  2..3: x := 2;\nELSE\n  x := 0;\nEND_CASE;\n"),
+    ("assign-rhs-index", "x := arr[i];\n"),
+    ("assign-lhs-index", "arr[i] := x;\n"),
+    ("assign-call", "x := Add2(a := x);\n"),
+    ("assign-binary-right-index", "x := (x + 1) * arr[i];\n"),
+    ("inner-rollback-in-if", "IF x >= 0 THEN\n  REPEAT\n    x := x + 1;\n    i := i + 1;\n  UNTIL (arr[i] > 0) OR (i >= 3)\n  END_REPEAT;\n  x := 5;\nEND_IF;\n"),
+    ("outer-rollback-drops-nested", "REPEAT\n  IF x > 1 THEN\n    x := 2;\n    i := 1;\n  END_IF;\n  WHILE k < 2 DO\n    k := k + 1;\n  END_WHILE;\n  i := i + 1;\nUNTIL (arr[i] > 0) OR (i >= 3)\nEND_REPEAT;\n"),
+    ("elsif-rollback-drops-nested-loop", "IF x > 100 THEN\n  WHILE i < 2 DO\n    i := i + 1;\n    x := x + 1;\n  END_WHILE;\n  k := 3;\nELSIF arr[i] > 0 THEN\n  x := 3;\nEND_IF;\n"),
+    ("rollback-inside-rollback", "REPEAT\n  REPEAT\n    k := k + 1;\n    x := x + 1;\n  UNTIL arr[k] > 0\n  END_REPEAT;\n  i := i + 1;\n  x := x - 1;\nUNTIL (arr[i] > 0) OR (i >= 3)\nEND_REPEAT;\n"),
+    ("repeat-in-while-body", "WHILE i < 3 DO\n  REPEAT\n    x := x + 1;\n    i := i + 1;\n  UNTIL arr[i] > 0\n  END_REPEAT;\n  k := k + 1;\nEND_WHILE;\n"),
+    ("repeat-in-for-body", "FOR k := 0 TO 2 DO\n  REPEAT\n    x := x + 1;\n    i := i + 1;\n  UNTIL arr[i] > 0\n  END_REPEAT;\n  x := x + k;\nEND_FOR;\n"),
+    ("repeat-in-case-branch", "CASE x OF\n  1: REPEAT\n       x := x + 1;\n       i := i + 1;\n     UNTIL arr[i] > 0\n     END_REPEAT;\n     k := 1;\nELSE\n  k := 2;\nEND_CASE;\n"),
+];
+
+/// where the statement under test sits in its POU
+pub const ROLLBACK_POSITIONS: &[&str] = &["only", "first", "middle", "last"];
+/// which kind of POU carries it
+pub const ROLLBACK_HOSTS: &[&str] = &["program", "function", "function-block", "method"];
+
+/// A complete project with statement `site` at `position` of a POU of kind `host`.
+pub fn rollback_program(site: usize, position: usize, host: usize) -> (String, String) {
+    let (name, stmt) = ROLLBACK_SITES[site % ROLLBACK_SITES.len()];
+    let pos = ROLLBACK_POSITIONS[position % ROLLBACK_POSITIONS.len()];
+    let host_name = ROLLBACK_HOSTS[host % ROLLBACK_HOSTS.len()];
+    let before = "x := 10;\nk := x + 1;\n";
+    let after = "k := 20;\nx := k - 1;\n";
+    let body = match pos {
+        "only" => stmt.to_string(),
+        "first" => format!("{stmt}{after}"),
+        "middle" => format!("{before}{stmt}{after}"),
+        _ => format!("{before}{stmt}"),
+    };
+    let add2 = "FUNCTION Add2 : INT\nVAR_INPUT a : INT; b : INT := 2; END_VAR\nAdd2 := a + b;\nEND_FUNCTION\n\n";
+    // in a function block every variable is reached through SELF (dynamic references, `arr[i]` can be
+    // emitted); a VAR_EXTERNAL array is not a field of the block
+    let vars = "    x : INT := 0;\n    i : INT := 0;\n    k : INT := 0;\n    arr : ARRAY[0..3] OF INT;\n";
+    let globals = "CONFIGURATION C\nVAR_GLOBAL\n    garr : ARRAY[0..3] OF INT;\nEND_VAR\nPROGRAM P1 : Main;\nEND_CONFIGURATION\n";
+    let ext_body = body.replace("arr[", "garr[");
+    let source = match host_name {
+        "program" => format!("{add2}PROGRAM Main\nVAR\n{vars}END_VAR\n{body}END_PROGRAM\n"),
+        "function" => format!(
+            "{add2}FUNCTION Work : INT\nVAR_INPUT seed : INT; END_VAR\nVAR\n{vars}END_VAR\n{body}Work := x;\nEND_FUNCTION\n\nPROGRAM Main\nVAR r : INT; END_VAR\nr := Work(seed := 1);\nEND_PROGRAM\n"
+        ),
+        "function-block" => format!(
+            "{add2}FUNCTION_BLOCK Worker\nVAR_EXTERNAL garr : ARRAY[0..3] OF INT; END_VAR\nVAR\n{vars}END_VAR\n{ext_body}END_FUNCTION_BLOCK\n\nPROGRAM Main\nVAR w : Worker; END_VAR\nw();\nEND_PROGRAM\n\n{globals}"
+        ),
+        _ => format!(
+            "{add2}FUNCTION_BLOCK Worker\nVAR_EXTERNAL garr : ARRAY[0..3] OF INT; END_VAR\nVAR PUBLIC\n{vars}END_VAR\nMETHOD PUBLIC Run : INT\n{ext_body}Run := x;\nEND_METHOD\nEND_FUNCTION_BLOCK\n\nPROGRAM Main\nVAR w : Worker; r : INT; END_VAR\nr := w.Run();\nEND_PROGRAM\n\n{globals}"
+        ),
+    };
+    (format!("{name}/{pos}/{host_name}"), source)
 }
 
 /// The runtime every mutated or random container is applied to: no struct/array values (so that a
